@@ -97,6 +97,7 @@ from cardutil import iso8583, config, CardutilError, BitArray
 from cardutil.vendor import hexdump
 
 LOGGER = logging.getLogger(__name__)
+IPM_INFO_SAMPLE_SIZE = 2500  # number of bytes that ipm_info inspects
 
 
 class MciIpmDataError(CardutilError):
@@ -735,7 +736,7 @@ def ipm_info(input_data: typing.BinaryIO) -> dict:
     output = {"isValidIPM": False}
 
     # get first 2500 bytes to perform analysis
-    sample_data = input_data.read(2500)
+    sample_data = input_data.read(IPM_INFO_SAMPLE_SIZE)
 
     # if data less than 20 bytes then can't be valid
     if len(sample_data) < 24:
@@ -772,19 +773,19 @@ def ipm_info(input_data: typing.BinaryIO) -> dict:
 
 def block_1014_check(sample_data):
     # Blocked files should be blocked out to 1014 at a minimum.
-    # Going to work with first 1014 bytes of the file
     if len(sample_data) < 1014:
         return False
 
-    # if the last two bytes of stream is x40x40, the probably blocked.
-    # go and get the next 2 just to be sure
-    first_1014 = sample_data[0:1014]
-    if first_1014[-2:] == Block1014.PAD_CHAR * 2:
-        if len(sample_data) == 1014:
-            return True
-        if len(sample_data) == 2028 and sample_data[-2:] == Block1014.PAD_CHAR * 2:
-            return True
-    return False
+    # A blocked file is a whole number of 1014 byte blocks.
+    # If the sample holds the complete file (shorter than the sample size), check that
+    if len(sample_data) < IPM_INFO_SAMPLE_SIZE and len(sample_data) % 1014 != 0:
+        return False
+
+    # every complete block in the sample must finish with the x40x40 block pad chars
+    for block_end in range(1014, len(sample_data) + 1, 1014):
+        if sample_data[block_end - 2:block_end] != Block1014.PAD_CHAR * 2:
+            return False
+    return True
 
 
 def bitmap_check(bitmap: bytes) -> (bool, str):
